@@ -131,6 +131,7 @@ def regex_call(I, how, pattern, s):
     if isinstance(mode, (list, tuple)):
         mode = mode[min(cnt[0] - 1, len(mode) - 1)]
     groups = None
+    extra = mode if isinstance(mode, dict) else {}
     if isinstance(mode, dict):
         groups = {k: (I.lookup_name(v, I._top_frame) if isinstance(v, str) and v.startswith('$') is False and False else v) for k, v in mode.get('groups', {}).items()}
         groups = {k: I.eval_src(v, I._top_frame) if isinstance(v, str) else v for k, v in mode.get('groups', {}).items()}
@@ -138,7 +139,7 @@ def regex_call(I, how, pattern, s):
             cond = I.eval_src(mode['when'], I._top_frame)
             mode = 'match' if I.truth(cond) else 'none'
         else:
-            mode = mode.get('mode', 'match')
+            mode = mode.get('mode', 'any' if ('end_anchored' in mode or 'assume' in mode) and 'groups' not in mode else 'match')
     if mode == 'none':
         return None
     if mode == 'any':
@@ -155,6 +156,14 @@ def regex_call(I, how, pattern, s):
             mv.start = 0
     if groups is not None:
         mv.declared_only = True
+    if extra.get('end_anchored'):
+        # R2: the pattern text ends in an unescaped '$' (checked separately as a syntactic obligation)
+        I.p.assume(I.term(mv.end) == I.term(lib.length(I, s)))
+    if extra.get('assume'):
+        from .symex import Frame
+        fr = I.cur_frame
+        sub = Frame(fr.func, I.env.spec_module, {'M': mv}, cls=fr.cls, parent=I.spec_frame(fr))
+        I.p.assume(I.formula(I.parse_src(extra['assume']), sub))
     return mv
 
 
